@@ -411,6 +411,7 @@ type Val struct {
 	Lin    *Lin   // integer-valued linear form
 	B      *F     // boolean-valued formula
 	Opaque string // anything else (canonical text)
+	Tuple  []Val  // results of an inlined multi-value call
 }
 
 func (v Val) String() string {
@@ -470,6 +471,12 @@ type symEnv struct {
 	onAssign   func(st *symState, lhs ast.Expr, rhs ast.Expr)
 	// loopBody: the interpreted block is one iteration of a loop (continue/break end the path)
 	loopBody bool
+	// inlinable: calls of private helpers that are interpreted by stepping into their bodies
+	// (returns the declaration to inline, or nil).  recvs: receiver objects of the frames on the
+	// inline stack (helpers of the same object see the same fields).
+	inlinable   func(call *ast.CallExpr) *ast.FuncDecl
+	recvs       map[types.Object]bool
+	inlineStack []*ast.FuncDecl
 	havocN     int
 }
 
@@ -538,6 +545,11 @@ func isBoolType(t types.Type) bool {
 func (e *symEnv) eval(st *symState, x ast.Expr) Val {
 	x = ast.Unparen(x)
 	e.cur = st
+	if call, ok := x.(*ast.CallExpr); ok {
+		if v, ok := st.vars[fmt.Sprintf("$call:%d", call.Pos())]; ok {
+			return v
+		}
+	}
 	if e.resolve != nil {
 		if v, ok := e.resolve(x); ok {
 			return v
@@ -802,6 +814,151 @@ func (e *symEnv) assign(st *symState, lhs ast.Expr, v Val) {
 }
 
 func (e *symEnv) exec(st *symState, s ast.Stmt) []*symState {
+	if e.inlinable != nil {
+		if calls := e.inlinableCallsIn(s); len(calls) > 0 {
+			states := []*symState{st}
+			for _, call := range calls {
+				var next []*symState
+				for _, cs := range states {
+					next = append(next, e.inlineCall(cs, call)...)
+				}
+				states = next
+			}
+			var out []*symState
+			for _, cs := range states {
+				out = append(out, e.execCore(cs, s)...)
+			}
+			return out
+		}
+	}
+	return e.execCore(st, s)
+}
+
+// inlinableCallsIn lists the inlinable calls of a statement's own expressions (not of nested
+// statement bodies), innermost first.
+func (e *symEnv) inlinableCallsIn(s ast.Stmt) []*ast.CallExpr {
+	var exprs []ast.Expr
+	switch x := s.(type) {
+	case *ast.ExprStmt:
+		exprs = append(exprs, x.X)
+	case *ast.AssignStmt:
+		exprs = append(exprs, x.Rhs...)
+	case *ast.DeclStmt:
+		if gd, ok := x.Decl.(*ast.GenDecl); ok {
+			for _, sp := range gd.Specs {
+				if vs, ok := sp.(*ast.ValueSpec); ok {
+					exprs = append(exprs, vs.Values...)
+				}
+			}
+		}
+	case *ast.ReturnStmt:
+		exprs = append(exprs, x.Results...)
+	case *ast.IfStmt:
+		if x.Init == nil {
+			exprs = append(exprs, x.Cond)
+		}
+	case *ast.SwitchStmt:
+		if x.Init == nil && x.Tag != nil {
+			exprs = append(exprs, x.Tag)
+		}
+	}
+	var out []*ast.CallExpr
+	for _, ex := range exprs {
+		ast.Inspect(ex, func(n ast.Node) bool {
+			if _, isLit := n.(*ast.FuncLit); isLit {
+				return false
+			}
+			if call, ok := n.(*ast.CallExpr); ok && e.inlinable(call) != nil {
+				out = append(out, call)
+			}
+			return true
+		})
+	}
+	// innermost first: reverse pre-order
+	for i, j := 0, len(out)-1; i < j; i, j = i+1, j-1 {
+		out[i], out[j] = out[j], out[i]
+	}
+	return out
+}
+
+// inlineCall interprets the callee's body from st with the parameters bound to the argument
+// values; every normally returning path continues as a state that carries the results under
+// the key $call:<pos>.  Panicking paths are finished as panics of the caller.
+func (e *symEnv) inlineCall(st *symState, call *ast.CallExpr) []*symState {
+	key := fmt.Sprintf("$call:%d", call.Pos())
+	if _, done := st.vars[key]; done {
+		return []*symState{st}
+	}
+	fd := e.inlinable(call)
+	if fd == nil || len(e.inlineStack) >= 3 {
+		return []*symState{st}
+	}
+	for _, f := range e.inlineStack {
+		if f == fd {
+			return []*symState{st}
+		}
+	}
+	// bind parameters
+	st2 := st.clone()
+	var params []*ast.Ident
+	if fd.Type.Params != nil {
+		for _, f := range fd.Type.Params.List {
+			params = append(params, f.Names...)
+		}
+	}
+	if len(params) != len(call.Args) {
+		return []*symState{st}
+	}
+	for i, p := range params {
+		v := e.eval(st, call.Args[i])
+		if o := e.info.Defs[p]; o != nil {
+			st2.vars[objKey(o)] = v
+		}
+	}
+	if fd.Recv != nil && len(fd.Recv.List) > 0 && len(fd.Recv.List[0].Names) > 0 {
+		if o := e.info.Defs[fd.Recv.List[0].Names[0]]; o != nil {
+			if e.recvs == nil {
+				e.recvs = map[types.Object]bool{}
+			}
+			e.recvs[o] = true
+		}
+	}
+	savedPaths, savedLoop := e.paths, e.loopBody
+	e.paths, e.loopBody = nil, false
+	e.inlineStack = append(e.inlineStack, fd)
+	rest := e.execList([]*symState{st2}, fd.Body.List)
+	e.inlineStack = e.inlineStack[:len(e.inlineStack)-1]
+	sub := e.paths
+	e.paths, e.loopBody = savedPaths, savedLoop
+	var out []*symState
+	for _, r := range rest { // fell off the end of a function without results
+		r.vars[key] = Val{Opaque: "void"}
+		out = append(out, r)
+	}
+	for _, p := range sub {
+		switch p.Kind {
+		case "return":
+			ns := &symState{vars: map[string]Val{}, cube: append(Cube{}, p.Cube...), accesses: p.Accesses, calls: p.Calls}
+			for k, v := range p.State {
+				ns.vars[k] = v
+			}
+			switch len(p.Rets) {
+			case 0:
+				ns.vars[key] = Val{Opaque: "void"}
+			case 1:
+				ns.vars[key] = p.Rets[0]
+			default:
+				ns.vars[key] = Val{Tuple: p.Rets, Opaque: "tuple"}
+			}
+			out = append(out, ns)
+		default:
+			e.paths = append(e.paths, p) // panic (or fall) inside the helper ends the caller's path too
+		}
+	}
+	return out
+}
+
+func (e *symEnv) execCore(st *symState, s ast.Stmt) []*symState {
 	switch s := s.(type) {
 	case *ast.BlockStmt:
 		return e.execList([]*symState{st}, s.List)
@@ -837,7 +994,11 @@ func (e *symEnv) exec(st *symState, s ast.Stmt) []*symState {
 				// multi-value call
 				v := e.eval(st, vs.Values[0])
 				for i, n := range vs.Names {
-					e.assign(st, n, Val{Opaque: fmt.Sprintf("%s#%d", v.String(), i)})
+					if i < len(v.Tuple) {
+						e.assign(st, n, v.Tuple[i])
+					} else {
+						e.assign(st, n, Val{Opaque: fmt.Sprintf("%s#%d", v.String(), i)})
+					}
 				}
 			}
 		}
@@ -859,7 +1020,11 @@ func (e *symEnv) exec(st *symState, s ast.Stmt) []*symState {
 			} else {
 				v := e.eval(st, s.Rhs[0])
 				for i := range s.Lhs {
-					e.assign(st, s.Lhs[i], Val{Opaque: fmt.Sprintf("%s#%d", v.String(), i)})
+					if i < len(v.Tuple) {
+						e.assign(st, s.Lhs[i], v.Tuple[i])
+					} else {
+						e.assign(st, s.Lhs[i], Val{Opaque: fmt.Sprintf("%s#%d", v.String(), i)})
+					}
 				}
 			}
 		case token.ADD_ASSIGN, token.SUB_ASSIGN:
@@ -1345,4 +1510,55 @@ func feasibleFM(cube Cube) bool {
 		}
 	}
 	return true
+}
+
+// enableInlining lets the interpreter step into private helpers: unexported methods called on the
+// receiver (of fd or of a frame already inlined) and unexported package-level functions of the
+// repository, except those in skip (helpers a rule abstracts on its own).
+func enableInlining(c *Ctx, env *symEnv, fd *ast.FuncDecl, skip map[*types.Func]bool) {
+	info := env.info
+	if env.recvs == nil {
+		env.recvs = map[types.Object]bool{}
+	}
+	if ro := recvObj(info, fd); ro != nil {
+		env.recvs[ro] = true
+	}
+	env.inlinable = func(call *ast.CallExpr) *ast.FuncDecl {
+		cf := calleeOf(info, call)
+		if cf == nil || ast.IsExported(cf.Name()) || skip[cf.Origin()] {
+			return nil
+		}
+		d := c.declOf(cf)
+		if d == nil || d.Body == nil {
+			return nil
+		}
+		if c.infoFor(d) != info {
+			return nil // another package: different types.Info
+		}
+		if d.Recv != nil {
+			sel, ok := ast.Unparen(call.Fun).(*ast.SelectorExpr)
+			if !ok {
+				return nil
+			}
+			id, ok := ast.Unparen(sel.X).(*ast.Ident)
+			if !ok || !env.recvs[info.Uses[id]] {
+				return nil
+			}
+		}
+		return d
+	}
+}
+
+// isRecvRooted: e is a receiver of the current inline stack, or receiver.field.
+func (e *symEnv) isRecvRooted(x ast.Expr) bool {
+	x = ast.Unparen(x)
+	if id, ok := x.(*ast.Ident); ok {
+		return e.recvs[e.info.Uses[id]]
+	}
+	if se, ok := x.(*ast.SelectorExpr); ok && selectorField(e.info, se) != nil {
+		if id, ok := ast.Unparen(se.X).(*ast.Ident); ok {
+			return e.recvs[e.info.Uses[id]]
+		}
+	}
+	return false
 }
